@@ -192,8 +192,10 @@ class SimpleLoop(Loop[World]):
 
         See :meth:`Loop.start` for more details.
         """
-        super().start()
-        self.last_timestamp = None
+        try:
+            super().start()
+        finally:
+            self.last_timestamp = None
 
     def loop(self):
         """Simple main loop.
